@@ -24,10 +24,10 @@ type PrintOpts struct {
 	// AltQuotes: string literals may be spelled with single quotes.
 	AltQuotes bool
 	// Stats
-	Redundant  int // redundant parenthesis pairs emitted
-	Trailing   int // trailing commas emitted
-	Required   int // required parenthesis pairs emitted
-	LHSParens  int // redundant parentheses put around an assignment target
+	Redundant int // redundant parenthesis pairs emitted
+	Trailing  int // trailing commas emitted
+	Required  int // required parenthesis pairs emitted
+	LHSParens int // redundant parentheses put around an assignment target
 }
 
 func (o *PrintOpts) chance(pct int) bool {
